@@ -244,6 +244,36 @@ def gen_call(rng):
     return f, m, ["1", "2", "3", "4"], lambda: (_ for _ in ()).throw(B.SassErr("too many arguments"))
 
 
+# documented parameter names (sass-lang.com/documentation/modules); `None` = a rest parameter (never named here)
+PARAMS = {
+    "length": ["list"], "nth": ["list", "n"], "set-nth": ["list", "n", "value"],
+    "join": ["list1", "list2", "separator", "bracketed"], "append": ["list", "val", "separator"],
+    "index": ["list", "value"], "list-separator": ["list"], "is-bracketed": ["list"],
+    "map-get": ["map", "key"], "map-has-key": ["map", "key"], "map-keys": ["map"], "map-values": ["map"],
+    "map-merge": ["map1", "map2"],     # (map.remove is documented as ($map, $keys...): its keys are never named)
+    "str-length": ["string"], "str-slice": ["string", "start-at", "end-at"], "str-index": ["string", "substring"],
+    "str-insert": ["string", "insert", "index"], "quote": ["string"], "unquote": ["string"],
+    "to-upper-case": ["string"], "to-lower-case": ["string"], "string.split": ["string", "separator", "limit"],
+    "map.deep-merge": ["map1", "map2"],
+}
+
+
+def name_args(rng, fname, args):
+    """the same call with its trailing k arguments passed by their documented names (`_`/`-` spelling varied)"""
+    ps = PARAMS.get(fname)
+    if not ps or not args or len(args) > len(ps) or any(a.startswith("$") for a in args):
+        return None
+    k = rng.range(1, len(args))
+    out = list(args[:len(args) - k])
+    named = []
+    for i in range(len(args) - k, len(args)):
+        pn = ps[i] if rng.chance(0.8) else ps[i].replace("-", "_")
+        named.append("$%s: %s" % (pn, args[i]))
+    if rng.chance(0.3):
+        rng.shuffle(named)
+    return out + named
+
+
 def as_items(v):
     return V.as_list(v)
 
@@ -261,6 +291,11 @@ def run(sh):
                 want = ("err", str(e))
             except (IndexError, TypeError, KeyError, ValueError) as e:
                 continue  # model does not cover this argument shape
+            if rng.chance(0.2):
+                na = name_args(rng, g or m, args)
+                if na is not None:
+                    args = na
+                    sh.count("calls_with_named_arguments")
             calls.append((g, m, args, want))
         exprs = []
         expect_err = []
